@@ -7,7 +7,7 @@ import (
 	clipper "github.com/bolom009/go-clipper2"
 )
 
-// The C18 harness bodies: a 20-call alphabet over shared, read-only inputs and
+// The C18 harness bodies: a 22-call alphabet over shared, read-only inputs and
 // distinct engine objects. The same bodies run (a) under the cooperative
 // scheduler of the schedule explorer and (b) free-running under the race detector.
 
@@ -40,6 +40,10 @@ var c18Calls = []struct {
 	{"RectClipPaths64", func() string { return fmt.Sprint(clipper.RectClipPaths64(clipper.NewRect64(15, 5, 50, 35), c18S)) }},
 	{"RectClipLinesPaths64", func() string { return fmt.Sprint(clipper.RectClipLinesPaths64(clipper.NewRect64(15, 5, 50, 35), c18L)) }},
 	{"MinkowskiSum64", func() string { return fmt.Sprint(clipper.MinkowskiSum64(c18C[1], c18S[1], true)) }},
+	{"MinkowskiDiff64", func() string { return fmt.Sprint(clipper.MinkowskiDiff64(c18C[1], c18S[1], true)) }},
+	{"MinkowskiDiff64(open path)+MinkowskiSumD", func() string {
+		return fmt.Sprint(clipper.MinkowskiDiff64(c18C[1], c18L[1], false), clipper.MinkowskiSumD(clipper.Path64ToPathD(c18C[1]), clipper.Path64ToPathD(c18L[0]), false, 1))
+	}},
 	{"SimplifyPaths64", func() string { return fmt.Sprint(clipper.SimplifyPaths64(c18S, 6, true)) }},
 	{"TrimCollinear64+Area64+PointInPolygon", func() string {
 		return fmt.Sprint(clipper.TrimCollinear64(c18S[0], false), clipper.Area64(c18S[1]), clipper.PointInPolygon(Pt{X: 30, Y: 20}, c18S[1]), clipper.GetBounds64(c18C[0]))
